@@ -76,7 +76,8 @@ def build_algorithms(spec, shared=None):
         plan = BatchPlanning("batch", delay)
     else:
         plan = hp.StaticPlanning("static", delay, seed=spec.get("static_seed", 0),
-                                 assign=spec.get("static_plan"))
+                                 assign=spec.get("static_plan"),
+                                 sort_by_est=not spec.get("static_unsorted", False))
     s = spec["scheduling"]
     k = s["kind"]
     if shared is not None and shared.get("sched") is not None:
@@ -171,7 +172,7 @@ def outputs(sim, df=None):
     return {"rows": rows, "events": ev, "tasks": tasks, "task_order": order, "task_truth": truth}
 
 
-def run_spec(spec, listeners=(), until=None, resume=None, max_steps=None, env=None, shared=None):
+def run_spec(spec, listeners=(), until=None, resume=None, max_steps=None, env=None, shared=None, between=None):
     """Run `spec` on the real code.  Returns a record dict; never raises for
     exceptions of the simulation itself (they are recorded)."""
     h = SimHandle(spec, env=env, shared=shared)
@@ -196,6 +197,8 @@ def run_spec(spec, listeners=(), until=None, resume=None, max_steps=None, env=No
             try:
                 if until is not None:
                     sim.start(runtime=until)
+                    if between is not None:
+                        between(sim)           # a call of the public API at the pause point
                     for u in (resume or []):
                         sim.resume(until=u)
                 else:
